@@ -523,7 +523,7 @@ Proof.
   - (* BlockListSpec *)
     cbn [sdecode implied_type] in *. destruct W as [W _].
     destruct (seq_blocks _ _) as [[vs ds] unk] eqn:S.
-    destruct unk; [apply conforms_refl|].
+    destruct unk as [um|]; [cbn [fst]; rewrite type_of_with_marks; apply conforms_refl|].
     destruct vs as [|v0 vr]; [apply conforms_refl|].
     assert (Cds : clean3 ds).
     { destruct (homogenise (v0 :: vr)) as [vs' u| | |]; cbn [snd] in C.
@@ -554,7 +554,7 @@ Proof.
   - (* BlockSetSpec *)
     cbn [sdecode implied_type] in *. destruct W as [W _].
     destruct (seq_blocks _ _) as [[vs ds] unk] eqn:S.
-    destruct unk; [apply conforms_refl|].
+    destruct unk as [um|]; [cbn [fst]; rewrite type_of_with_marks; apply conforms_refl|].
     destruct vs as [|v0 vr]; [apply conforms_refl|].
     assert (Cds : clean3 ds).
     { destruct (homogenise (v0 :: vr)) as [vs' u| | |]; cbn [snd] in C.
@@ -585,7 +585,7 @@ Proof.
     destruct (has_dyn (iter_ty (length ls) TMap (implied_type s))) eqn:D.
     { exfalso. destruct C as [_ C]. discriminate. }
     destruct (keyed_blocks _ _ _ _ _) as [[items ds] unk] eqn:K.
-    destruct unk; [apply conforms_refl|].
+    destruct unk as [um|]; [cbn [fst]; rewrite type_of_with_marks; apply conforms_refl|].
     destruct (panicked ds) eqn:P; [exfalso; destruct C as [_ C]; cbn [snd] in C; congruence|].
     destruct items as [|i0 ir].
     + cbn [fst snd] in *. destruct ls as [|l0 [|l1 lr]]; [congruence|apply conforms_refl|].
